@@ -102,7 +102,7 @@ def r1(ctx):
                 present = True if pc_ == "present" else False if pc_ == "absent" else None
             if present is None and first.name == "remove":
                 # unconditional remove: presence is learnt from its result
-                dres = p.state.discr.get(first.extra.get("result"))
+                dres = d2(p, first.extra.get("result"))
                 present = True if dres == 1 else False if dres == 0 else None
             if len(rms) > 1:
                 rep.bad("delete:shape", "cannot evaluate: delete removes more than once on a path (map events: %s)" % [e.name for e in evs], d.loc())
@@ -176,7 +176,7 @@ def r2(ctx):
                 bad = "a path makes %d MemcStore calls" % len(calls)
                 break
             res = calls[0].result
-            d = p.state.discr.get(res)
+            d = d2(p, res)
             if d != 0:
                 continue  # error path
             n_ok += 1
@@ -235,7 +235,7 @@ def r4(ctx):
             if not calls or calls[0].name != CACHE + "::get":
                 continue
             got = calls[0].result
-            if p.state.discr.get(got) != 0:
+            if d2(p, got) != 0:
                 continue  # key absent
             for e in calls[1:]:
                 if e.name == CACHE + "::set":
